@@ -128,13 +128,13 @@ Proof.
 Qed.
 
 (* ---- renaming a NAME: every stored formula is re-read, renamed and re-printed ---------------------
-   In the English / decimal-point configuration the new stored text is the stored-form print of
-   the renamed tree. *)
-Theorem name_rename_in_formula nm env lower name scope new_name e :
+   Whatever the user's locale and language, the new stored text is the stored-form print of the
+   renamed tree (C09 in the stored form). *)
+Theorem name_rename_in_formula dot_active nm_active nm env lower name scope new_name e :
   image (m_rc_of true) nm env e = true -> no_bad false e = true -> lower_stable nm e = true ->
-  formula_after_name_rename true nm nm env lower name scope new_name (print (m_rc_of true) nm e)
+  formula_after_name_rename dot_active nm_active nm env lower name scope new_name (print (m_rc_of true) nm e)
   = print (m_rc_of true) nm (rename lower name scope new_name e).
 Proof.
-  intros Hi Hb Hl. unfold formula_after_name_rename.
+  intros Hi Hb Hl. unfold formula_after_name_rename. cbn [fst snd].
   rewrite (roundtrip_parse (m_rc_of true) nm env e Hi Hb Hl). reflexivity.
 Qed.
